@@ -17,7 +17,9 @@ for fn in sys.argv[3:]:
         sid, chk, rc, vio, summ = m.groups()
         meta = json.load(open(os.path.join(V, "seeded", sid, "meta.json")))
         e = res.setdefault(sid, {})
-        e.update({"wave": meta.get("wave", e.get("wave", wave)), "site": meta.get("site", ""), "what_breaks": meta.get("what_breaks", ""),
+        if "wave" in meta:
+            e["wave"] = meta["wave"]
+        e.update({"site": meta.get("site", ""), "what_breaks": meta.get("what_breaks", ""),
                   "needs_to_manifest": meta.get("needs_to_manifest", "")})
         caught = rc != "0" and "VIOLATION" in vio
         nofail = "no-failing-input-found" in vio
